@@ -101,17 +101,26 @@ type Scan struct {
 	Pos     string
 }
 
+// Guard: package-level variable <Global> of package Pkg may only be accessed while the lock denoted by Lock is held.
+type Guard struct {
+	Pkg, Global string
+	Lock        ast.Expr
+	Text, Pos   string
+}
+
 type ContractSet struct {
-	Scans   []*Scan
-	Funcs   map[string]*Contract // key: pkgpath + "." + FuncName
-	Order   []string
-	Specs   map[string]*SpecFn
-	Globals []*GlobalInv
-	Errors  []string
+	Guards      map[string]*Guard // key: pkgpath + "." + global name
+	FieldGuards map[string]string // key: pkgpath + "." + Type + "." + field -> name of the mutex field of the same struct
+	Scans       []*Scan
+	Funcs       map[string]*Contract // key: pkgpath + "." + FuncName
+	Order       []string
+	Specs       map[string]*SpecFn
+	Globals     []*GlobalInv
+	Errors      []string
 }
 
 func newContractSet() *ContractSet {
-	return &ContractSet{Funcs: map[string]*Contract{}, Specs: map[string]*SpecFn{}}
+	return &ContractSet{Funcs: map[string]*Contract{}, Specs: map[string]*SpecFn{}, Guards: map[string]*Guard{}, FieldGuards: map[string]string{}}
 }
 
 // preprocessImplies rewrites "a ==> b" into implies(a, b) and "a <==> b" into iff(a, b),
@@ -253,7 +262,7 @@ func parseCExpr(text string) (ast.Expr, string, error) {
 }
 
 var clauseKeywords = map[string]bool{
-	"func": true, "props": true, "ghostensures": true, "case": true, "assume": true, "carve": true, "caseall": true, "commute": true, "sortby": true, "assumeframe": true, "mode": true, "requires": true, "ensures": true, "invariant": true,
+	"func": true, "props": true, "ghostensures": true, "case": true, "assume": true, "carve": true, "caseall": true, "commute": true, "sortby": true, "assumeframe": true, "guarded": true, "guardedfield": true, "mode": true, "requires": true, "ensures": true, "invariant": true,
 	"modifies": true, "safety": true, "overflow": true, "inline": true, "trusted": true, "dispatch": true,
 	"let": true, "spec": true, "external": true, "uf": true, "params": true, "results": true,
 	"global": true, "noinline": true, "nocontract": true, "expand": true, "split": true, "strictpkgs": true, "modcomps": true, "axiom": true, "uses": true, "scan": true, "witness": true, "havoc": true, "inlineall": true, "unroll": true,
@@ -375,6 +384,27 @@ func (cs *ContractSet) parseContractSource(pkgPath, filename string, src []byte)
 			sc := &Scan{Pkg: pkgPath, Label: label, Pos: pos, Kind: head[len(head)-2], Target: head[len(head)-1], Props: strings.Split(head[0], ","),
 				Allowed: strings.Fields(strings.ReplaceAll(rest[colon+1:], ",", " "))}
 			cs.Scans = append(cs.Scans, sc)
+		case "guardedfield":
+			// guardedfield <Type>.<field> <mutex field of the same struct>
+			fs := strings.Fields(rest)
+			if len(fs) != 2 || !strings.Contains(fs[0], ".") {
+				bad(fmt.Errorf("guardedfield <Type>.<field> <mutexfield>"))
+				continue
+			}
+			cs.FieldGuards[pkgPath+"."+fs[0]] = fs[1]
+		case "guarded":
+			// guarded <global> <lock expression>
+			fs := strings.SplitN(rest, " ", 2)
+			if len(fs) != 2 {
+				bad(fmt.Errorf("guarded <global> <lock expr>"))
+				continue
+			}
+			ex, pp, err := parseCExpr(strings.TrimSpace(fs[1]))
+			if err != nil {
+				bad(err)
+				continue
+			}
+			cs.Guards[pkgPath+"."+fs[0]] = &Guard{Pkg: pkgPath, Global: fs[0], Lock: ex, Text: pp, Pos: pos}
 		case "axiom":
 			// axiom name: expr
 			colon := strings.Index(rest, ":")
